@@ -158,6 +158,16 @@ impl LspServer {
             }
         }
     }
+    /// the client opens document k again: the next `document_at` sends didOpen (after a didClose when `close` is set)
+    pub fn forget(&mut self, k: usize, close: bool) {
+        if self.opened_uris.contains(&k) {
+            if close {
+                let uri = Self::URIS[k % Self::URIS.len()];
+                self.send(&format!(r#"{{"jsonrpc":"2.0","method":"textDocument/didClose","params":{{"textDocument":{{"uri":"{}"}}}}}}"#, uri));
+            }
+            self.opened_uris.retain(|x| *x != k);
+        }
+    }
     pub fn document_at(&mut self, k: usize, text: &str) -> Option<(serde_json::Value, serde_json::Value)> {
         let uri = Self::URIS[k % Self::URIS.len()];
         let t = serde_json::Value::String(text.to_string()).to_string();
@@ -519,8 +529,9 @@ impl Session {
                     }
                 }
             }
-            ["lsp", rest @ ..] | ["lspu", _, rest @ ..] => {
-                let k: usize = if parts[0] == "lspu" { parts[1].parse().unwrap_or(0) } else { 0 };
+            ["lsp", rest @ ..] | ["lspu", _, rest @ ..] | ["lspo", _, rest @ ..] => {
+                let k: usize = if parts[0] != "lsp" { parts[1].parse().unwrap_or(0) } else { 0 };
+                let reopen = parts[0] == "lspo";
                 let text = match rest {
                     [] => Some(String::new()),
                     [h] => unhex(h),
@@ -531,6 +542,9 @@ impl Session {
                     self.lsp = LspServer::start();
                 }
                 let Some(server) = self.lsp.as_mut() else { return "NO-SERVER".to_string() };
+                if reopen {
+                    server.forget(k, text.len() % 2 == 0);
+                }
                 match server.document_at(k, &text) {
                     None => {
                         self.lsp = None;
